@@ -165,7 +165,7 @@ def faults(a):
                 yield (f"sensor:depends-on-control:{sn}:{r}", SM, "sensor-depends-on-control",
                        lambda x, sn=sn, r=r: x.sensor_models[sn].__setitem__(r, x.sensor_models[sn][r] + ct[0]))
             yield (f"sensor:depends-on-undeclared:{sn}:{r}", SM, "sensor-depends-on-undeclared",
-                   lambda x, sn=sn, r=r: x.sensor_models[sn].__setitem__(r, x.sensor_models[sn][r] * FRESH))
+                   lambda x, sn=sn, r=r: x.sensor_models[sn].__setitem__(r, x.sensor_models[sn][r] + FRESH))
             yield (f"snoise:reading-missing:{sn}:{r}", SN, "snoise-reading-missing",
                    lambda x, sn=sn, r=r: x.sensor_noises[sn].pop(r))
 
